@@ -19,6 +19,20 @@ func Name(t *ast.Task) (string, error) {
 }
 
 func Hash(t *ast.Task) (string, error) {
-	h, err := hashstructure.Hash(t, hashstructure.FormatV2, nil)
+	// The variable and environment maps have no exported fields, so they are
+	// hashed through their values: two calls with different variables are
+	// different executions even if the values only reach the environment.
+	v := struct {
+		Task *ast.Task
+		Vars map[string]any
+		Env  map[string]any
+	}{Task: t}
+	if t.Vars != nil {
+		v.Vars = t.Vars.ToCacheMap()
+	}
+	if t.Env != nil {
+		v.Env = t.Env.ToCacheMap()
+	}
+	h, err := hashstructure.Hash(v, hashstructure.FormatV2, nil)
 	return fmt.Sprintf("%s:%d", t.Task, h), err
 }
